@@ -7,7 +7,7 @@ open Ref
 
 theorem steps_rel (p : List Stmt) (st st' : State) (c : Option Nat) (im : Img)
     (hr : Rel st st.tasks c im) (hwf : ∀ s ∈ p, s.wf = true)
-    (hal : ∀ x n, (some x, Stmt.align n) ∈ trace c p → x < top ∨ x % n = 0)
+    (hal : ∀ x n, (some x, Stmt.align n) ∈ trace c p → x < top ∨ size x (.align n) = 0)
     (h : steps st p = .ok st') :
     ∃ im', pass2 c im p = some im' ∧ Rel st' st'.tasks (cursorAfter c p) im' ∧
       (∀ a, (im.get a).isSome = true → im'.get a = im.get a) := by
